@@ -294,6 +294,34 @@ impl<'a> Ctx<'a> {
         }
         ord
     }
+    /// E7: `&x` sub-patterns (Copy items) -> fresh binder `x__r`; returns the `let x = *x__r;` text
+    /// that must be placed at the start of the scope the pattern binds in.
+    fn ref_pats(&mut self, pat: &syn::Pat, in_closure_spec: bool) -> String {
+        struct P<'s> { found: Vec<(Span, String)>, bad: bool, _m: std::marker::PhantomData<&'s ()> }
+        impl<'ast, 's> Visit<'ast> for P<'s> {
+            fn visit_pat_reference(&mut self, r: &'ast syn::PatReference) {
+                if let syn::Pat::Ident(pi) = &*r.pat {
+                    if r.mutability.is_none() && pi.by_ref.is_none() && pi.subpat.is_none() {
+                        self.found.push((r.span(), pi.ident.to_string()));
+                        return;
+                    }
+                }
+                self.bad = true;
+            }
+        }
+        let mut p = P { found: vec![], bad: false, _m: std::marker::PhantomData };
+        p.visit_pat(pat);
+        if p.bad { self.errors.push("E7: unsupported reference pattern".into()); }
+        let mut lets = String::new();
+        for (sp, id) in p.found {
+            if !in_closure_spec {
+                let (a, b) = self.src.range(sp);
+                self.add(a, b, format!("{id}__r"), "E7 reference pattern");
+            }
+            lets.push_str(&format!("let {id} = *{id}__r; "));
+        }
+        lets
+    }
     fn is_ptr_add(&self, e: &syn::Expr) -> Option<(String, String)> {
         // P.add(e) with P a recorded pointer alias  (possibly inside unsafe { } or parens)
         match e {
@@ -494,15 +522,35 @@ impl<'a, 'ast> Visit<'ast> for Ctx<'a> {
         let (es, _) = self.src.range(f.expr.span());
         self.add(es, es, format!("it{ord}: "), "for-loop ghost iterator binder");
         // E7: `for &v in` / tuple patterns are left to Verus; report refusal for reference patterns
-        if let syn::Pat::Reference(_) = &*f.pat {
-            self.errors.push("E7: reference pattern in for loop not supported".into());
+        let lets = self.ref_pats(&f.pat, false);
+        if !lets.is_empty() {
+            let (bo, _) = self.src.range(f.body.brace_token.span.open());
+            self.add(bo + 1, bo + 1, format!(" {lets}"), "E7 reference pattern");
         }
         self.visit_expr(&f.expr);
         self.visit_block(&f.body);
     }
 
+    fn visit_expr_if(&mut self, i: &'ast syn::ExprIf) {
+        if let syn::Expr::Let(l) = &*i.cond {
+            let lets = self.ref_pats(&l.pat, false);
+            if !lets.is_empty() {
+                let (bo, _) = self.src.range(i.then_branch.brace_token.span.open());
+                self.add(bo + 1, bo + 1, format!(" {lets}"), "E7 reference pattern");
+            }
+        }
+        syn::visit::visit_expr_if(self, i);
+    }
+
     fn visit_expr_while(&mut self, w: &'ast syn::ExprWhile) {
         let _ = self.loop_marker("while", &w.body, w.span());
+        if let syn::Expr::Let(l) = &*w.cond {
+            let lets = self.ref_pats(&l.pat, false);
+            if !lets.is_empty() {
+                let (bo, _) = self.src.range(w.body.brace_token.span.open());
+                self.add(bo + 1, bo + 1, format!(" {lets}"), "E7 reference pattern");
+            }
+        }
         self.visit_expr(&w.cond);
         self.visit_block(&w.body);
     }
@@ -523,10 +571,16 @@ impl<'a, 'ast> Visit<'ast> for Ctx<'a> {
                 self.errors.push("E9: closure already has a return type".into());
             }
             self.add(o1, o2, spec.params.clone(), "E9 closure parameter types");
-            if let syn::Expr::Block(_) = &*c.body {
+            let mut lets = String::new();
+            for inp in &c.inputs { lets.push_str(&self.ref_pats(inp, true)); }
+            if let syn::Expr::Block(eb) = &*c.body {
                 self.add(bs, bs, format!(" -> {} /*@CLOSURE{ord}@*/ ", spec.ret), "E9 closure contract");
+                if !lets.is_empty() {
+                    let (bo, _) = self.src.range(eb.block.brace_token.span.open());
+                    self.add(bo + 1, bo + 1, format!(" {lets}"), "E7 reference pattern");
+                }
             } else {
-                self.add(bs, bs, format!(" -> {} /*@CLOSURE{ord}@*/ {{ ", spec.ret), "E9 closure contract");
+                self.add(bs, bs, format!(" -> {} /*@CLOSURE{ord}@*/ {{ {lets}", spec.ret), "E9 closure contract");
                 self.add(be, be, " }".to_string(), "E9 closure contract");
             }
         }
